@@ -1,8 +1,19 @@
 ------------------------------ MODULE MC_C09 ------------------------------
 EXTENDS Pestle, Json
 Misaligned == \E l \in DOMAIN M : \E b \in DOMAIN M[l] : M[l][b].lo[1] % SetMin(Extents) # 0
+\* where the refined part of a partly refined box touches it: the sides of the box along which a whole line of cells is refined
+\* (a reader that skips "the planes that are refined anyway" is right or wrong depending on the side and on the axis that is z)
+Cov(l, c) == CoveredByFiner(M, l - 1, c, lim)
+SlabSides(l, bx) ==
+  IF (\A c \in CellsOf(bx) : Cov(l, c)) \/ (\A c \in CellsOf(bx) : ~Cov(l, c)) THEN {}
+  ELSE (IF \A j \in bx.lo[2]..bx.hi[2] : Cov(l, <<bx.lo[1], j>>) THEN {"lo1"} ELSE {}) \cup
+       (IF \A j \in bx.lo[2]..bx.hi[2] : Cov(l, <<bx.hi[1], j>>) THEN {"hi1"} ELSE {}) \cup
+       (IF \A i \in bx.lo[1]..bx.hi[1] : Cov(l, <<i, bx.lo[2]>>) THEN {"lo2"} ELSE {}) \cup
+       (IF \A i \in bx.lo[1]..bx.hi[1] : Cov(l, <<i, bx.hi[2]>>) THEN {"hi2"} ELSE {})
+SlabClass == UNION {UNION {SlabSides(l, M[l][b]) : b \in DOMAIN M[l]} : l \in 1..lim}
 Sig == <<Len(M), lim, volfrac, Extents, IF Misaligned THEN "misaligned" ELSE "aligned",
-         IF \E l \in 1..(Len(M) - 1) : \E c \in LevelCells(M, l - 1) : ~CoveredByFiner(M, l - 1, c, Len(M) - 1) THEN "partial" ELSE "full">>
+         IF \E l \in 1..(Len(M) - 1) : \E c \in LevelCells(M, l - 1) : ~CoveredByFiner(M, l - 1, c, Len(M) - 1) THEN "partial" ELSE "full",
+         SlabClass>>
 SetToSeq2(S) == LET n == Cardinality(S) IN CHOOSE s \in [1..n -> S] : {s[i] : i \in 1..n} = S
 Scenario == [prop |-> "C09", sig |-> Sig, n1 |-> n1, n2 |-> N2, mesh |-> M, lim |-> lim, volfrac |-> volfrac,
              expect |-> IntegralCells(M, lim)]
